@@ -128,6 +128,10 @@ def run(ctx):
                 p = dict(threads=nw, timeout=to, flags=fl, seed=seed, perturb=[0, 25, 60][k % 3],
                          endafter=endafter, slicing=0 if (k == 0) else 1,
                          cpus=[0, 2, 1][k % 3] if not ctx.quick else 0)
+                if k == 0:
+                    # deterministic two-piece feeding: everything but the last few bytes, idle calls, then the tail
+                    # (the tail of a Block - padding / Check - is consumed without producing output)
+                    p["split_at"] = max(1, lay["filelen"] - [1, 3, 5, 9, 13][len(jobs) % 5])
                 if k % 3 == 1:
                     # re-initialise the same handle without lzma_end() after a few calls, then decode from the start
                     p["reinit_after"] = ctx.rng.randint(1, 6)
